@@ -223,6 +223,7 @@ def install_oracle(ex: Explorer):
     ex.stubs['Receiver::len'] = q_len
     ex.stubs['Sender::len'] = q_len
     ex.stubs['<Iter as Iterator>::next'] = q_iter_next
+    ex.stubs['Arc::strong_count'] = lambda ex, args, callee: arc_strong_count_oracle(ex, args, callee) if getattr(ex, 'oracle', False) else stubs.arc_strong_count(ex, args, callee)
     ex.stubs['spawn'] = q_spawn
     ex.stubs['thread::spawn'] = q_spawn
     ex.stubs['yield_now'] = lambda ex, args, callee: UNIT
